@@ -113,7 +113,7 @@ def fp_array(a):
     """Fingerprint of an ndarray: bytes + dtype + shape + strides + flags."""
     a = np.asarray(a) if not isinstance(a, np.ndarray) else a
     if a.dtype == object:
-        body = repr(a.tolist())
+        body = [_fp_obj(x) for x in a.ravel().tolist()]
     else:
         body = np.ascontiguousarray(a).tobytes()
     return (a.dtype.str, a.shape, a.strides, bool(a.flags.writeable), bool(a.flags.c_contiguous), body)
@@ -125,8 +125,17 @@ def fp_value(a):
         return None
     a = np.asarray(a)
     if a.dtype == object:
-        return ("O", a.shape, repr(a.tolist()))
+        return ("O", a.shape, [_fp_obj(x) for x in a.ravel().tolist()])
     return (a.dtype.str, a.shape, np.ascontiguousarray(a).tobytes())
+
+
+def _fp_obj(x):
+    """Element of an object array: value for plain data, type name for anything else (no addresses)."""
+    if x is None or isinstance(x, (str, int, float, bool, np.generic)):
+        return repr(x)
+    if isinstance(x, np.ndarray):
+        return fp_value(x)
+    return f"<{type(x).__name__}>"
 
 
 def make_array_arg(name, values, layout, exact_dtype, other_dtype, rng):
@@ -274,14 +283,14 @@ def trash_arg(arg):
 _SKIP_MODULES = ("numpy.random", "numba", "threading", "matplotlib")
 
 
-def internal_arrays(roots, limit=20000):
+def internal_arrays(roots, limit=20000, skip=()):
     """Every ndarray reachable from `roots` (list of (path, object)).
 
     Returns (list of (path, array), {id(container): path} for every dict / list / deque met).
     """
     out = []
     conts = {}
-    seen = set()
+    seen = {id(x) for x in skip}
     stack = [(p, o) for p, o in roots][::-1]
     n = 0
     while stack:
@@ -484,7 +493,8 @@ def make_emitter(spec, archive, k):
         return IsoLineEmitter(archive, x0=x0, batch_size=3, seed=seed)
     if kind == "es":
         return EvolutionStrategyEmitter(archive, x0=x0, sigma0=0.5, ranker=spec.get("ranker", "2imp"),
-                                        es=spec.get("es", "cma_es"), batch_size=4, seed=seed,
+                                        es=spec.get("es", "cma_es"),
+                                        batch_size=3 if spec.get("es") == "lm_ma_es" else 4, seed=seed,
                                         restart_rule=spec.get("restart", "no_improvement"))
     if kind == "ga":
         return GradientArborescenceEmitter(archive, x0=x0, sigma0=0.5, lr=0.25, ranker=spec.get("ranker", "2imp"),
@@ -555,9 +565,10 @@ class World:
         roots = [r for r in self.roots() if r[0] not in ("archive", "store")]
         if roots:
             g = []
-            for path, a in internal_arrays(roots)[0]:
-                if "._store." in path or "archive._" in path or ".archive." in path or "._archive." in path:
-                    continue  # storage rows are observed through data(); unoccupied rows are uninitialised
+            # the archive / store is observed through its public read paths (unoccupied storage rows are
+            # uninitialised memory), everything else through the arrays it holds
+            skip = [x for x in (self.archive, self.store) if x is not None]
+            for path, a in internal_arrays(roots, skip=skip)[0]:
                 g.append((path, fp_value(a)))
             o["graph"] = g
             o["rng"] = rng_states(roots)
@@ -635,7 +646,9 @@ def gen_rows(seed, n):
 
 def lay_of(op, name):
     lay = op.get("layout", "exact")
-    return lay[name] if isinstance(lay, dict) else lay
+    if name.startswith("add_info["):
+        name = "add_info"
+    return lay.get(name, "exact") if isinstance(lay, dict) else lay
 
 
 def mk(w, op, name, values, salt=0, exact=None, other=None):
@@ -1301,3 +1314,418 @@ def _run_case(case):
         except KeyError as e:
             raise RuntimeError(f"bad op {op}: {e}") from e
     return None
+
+
+# --------------------------------------------------------------------------
+# strata: exhaustive enumeration of (entry point, layout, dtype, class) x random states
+
+
+ADD_ARGS = ("solution", "objective", "measures", "ex")
+STORE_ARGS = ("indices", "objective", "measures", "solution")
+TELL_ARGS = ("objective", "measures", "ex")
+DQD_ARGS = ("solution", "objective", "measures", "ex", "jacobian", "add_info")
+
+
+def rand_layout(rng, names=ADD_ARGS):
+    """One layout for every argument, or (30 %) an independent layout per argument."""
+    if rng.random() < 0.3:
+        return {k: rng.choice(LAYOUTS) for k in names}
+    return rng.choice(LAYOUTS)
+
+
+def prefix_adds(rng, k, kind=None):
+    """State-building adds with random layouts. For the SlidingBoundariesArchive outside its own stratum
+    the prefix is batch adds of python lists: what its buffer does with caller arrays is the subject of the
+    stratum `sliding.add`, which enumerates it exhaustively."""
+    ops = []
+    for _ in range(k):
+        if kind == "sba":
+            ops.append({"op": "add", "n": rng.choice([1, 2, 3, 5]), "seed": rng.randrange(10**6), "layout": "list"})
+        elif rng.random() < 0.7:
+            ops.append({"op": "add", "n": rng.choice([1, 2, 3, 5]), "seed": rng.randrange(10**6),
+                        "layout": rand_layout(rng)})
+        else:
+            ops.append({"op": "add_single", "seed": rng.randrange(10**6), "layout": rand_layout(rng)})
+    return ops
+
+
+def combos_archive_add():
+    return [(k, d, L, o) for k in ARCH_KINDS if k != "sba" for d in DTYPES for L in LAYOUTS
+            for o in ("add", "add_single")]
+
+
+def gen_archive_add(rng, c):
+    k, d, L, o = c
+    ops = prefix_adds(rng, rng.randint(0, 3))
+    t = {"op": o, "seed": rng.randrange(10**6), "layout": L}
+    if o == "add":
+        t["n"] = rng.choice([1, 2, 4, 6])
+    ops.append(t)
+    ops += prefix_adds(rng, rng.randint(1, 2))
+    ops.append({"op": "sample", "n": 2})
+    return {"arch": k, "dtype": d, "ops": ops}
+
+
+def combos_sliding():
+    return [(d, L, o, rm, bf) for d in DTYPES for L in LAYOUTS for o in ("add", "add_single", "mixed")
+            for (rm, bf) in ((3, 4), (2, 2), (4, 3))] + \
+           [(d, L, "tell:" + m, 3, 4) for d in DTYPES for L in LAYOUTS for m in ("batch", "single")]
+
+
+def gen_sliding(rng, c):
+    d, L, o, rm, bf = c
+    if o.startswith("tell:"):
+        # the scheduler feeding a SlidingBoundariesArchive
+        ops = [{"op": "tell", "seed": rng.randrange(10**6), "layout": L} for _ in range(rng.randint(2, 3))]
+        ops.append({"op": "data", "rt": "dict"})
+        return {"arch": "sba", "dtype": d, "remap": rm, "buf": bf, "sched": "plain", "add_mode": o[5:],
+                "emitters": EMITTER_SETS["es"], "ops": ops}
+    ops = []
+    for _ in range(rng.randint(2 * rm + 1, 3 * rm + 2)):
+        kind = o if o != "mixed" else rng.choice(["add", "add_single"])
+        t = {"op": kind, "seed": rng.randrange(10**6), "layout": L}
+        if kind == "add":
+            t["n"] = rng.choice([1, 2, 3])
+        ops.append(t)
+    ops.append({"op": "data", "rt": "dict"})
+    return {"arch": "sba", "dtype": d, "remap": rm, "buf": bf, "ops": ops}
+
+
+READ_TARGETS = ([("retrieve", L) for L in LAYOUTS] + [("retrieve_single", L) for L in LAYOUTS] +
+                [("cqd", L) for L in LAYOUTS] +
+                [("sample", None), ("data:dict", None), ("data:tuple", None), ("data:pandas", None),
+                 ("data:single", None), ("data:fields:dict", None), ("data:fields:tuple", None),
+                 ("data:fields:pandas", None)])
+
+
+def combos_archive_read():
+    return [(k, d, t, L) for k in ARCH_KINDS for d in DTYPES for (t, L) in READ_TARGETS]
+
+
+def target_read_op(rng, t, L):
+    if t.startswith("data:"):
+        op = {"op": "data", "rt": t[5:]}
+        if t == "data:single":
+            op["field"] = rng.choice(["solution", "objective", "measures", "threshold", "ex", "index"])
+        return op
+    op = {"op": t, "seed": rng.randrange(10**6)}
+    if L is not None:
+        op["layout"] = L
+    if t in ("retrieve", "sample"):
+        op["n"] = rng.choice([1, 3, 5])
+    return op
+
+
+def gen_archive_read(rng, c):
+    k, d, t, L = c
+    ops = prefix_adds(rng, rng.randint(1, 4), k)
+    if k in ("prox", "prox_lc", "sba"):
+        ops = [{"op": "add", "n": 3, "seed": rng.randrange(10**6), "layout": "list" if k == "sba" else "exact"}] + ops
+    ops.append(target_read_op(rng, t, L))
+    ops += prefix_adds(rng, 1, k)
+    return {"arch": k, "dtype": d, "ops": ops}
+
+
+def combos_best():
+    return [(k, d) for k in ARCH_KINDS for d in DTYPES]
+
+
+def gen_best(rng, c):
+    k, d = c
+    ops = (prefix_adds(rng, rng.randint(1, 3), k) + [{"op": "best"}] + prefix_adds(rng, rng.randint(0, 2), k) +
+           [{"op": "best"}])
+    return {"arch": k, "dtype": d, "ops": ops}
+
+
+def combos_iter():
+    return [(k, d) for k in ARCH_KINDS + ["store"] for d in DTYPES]
+
+
+def store_prefix(rng, k):
+    return [{"op": "store_add", "n": rng.choice([1, 2, 4]), "seed": rng.randrange(10**6),
+             "layout": rand_layout(rng, STORE_ARGS)}
+            for _ in range(k)]
+
+
+def gen_iter(rng, c):
+    k, d = c
+    if k == "store":
+        return {"store": True, "dtype": d, "ops": store_prefix(rng, rng.randint(1, 3)) + [{"op": "iter"}]}
+    return {"arch": k, "dtype": d, "ops": prefix_adds(rng, rng.randint(1, 3), k) + [{"op": "iter"}]}
+
+
+def combos_store():
+    out = []
+    for d in DTYPES:
+        for L in LAYOUTS:
+            out.append((d, "store_add", L, None, None))
+            for rt in ("dict", "tuple", "pandas"):
+                for sel in ("all", "one", "some"):
+                    out.append((d, "store_retrieve", L, rt, sel))
+        for rt in ("dict", "tuple", "pandas"):
+            for sel in ("all", "one", "some"):
+                out.append((d, "store_data", None, rt, sel))
+        out.append((d, "store_raw", None, None, None))
+    return out
+
+
+def gen_store(rng, c):
+    d, o, L, rt, sel = c
+    ops = store_prefix(rng, rng.randint(1, 3))
+    t = {"op": o, "seed": rng.randrange(10**6)}
+    if L is not None:
+        t["layout"] = L
+    if o == "store_add":
+        t["n"] = rng.choice([1, 3, 5])
+    if rt is not None:
+        t["rt"], t["sel"] = rt, sel
+    ops.append(t)
+    ops += store_prefix(rng, 1)
+    return {"store": True, "dtype": d, "ops": ops}
+
+
+EMITTER_SETS = {
+    "gauss": [{"kind": "gauss"}, {"kind": "gauss"}],
+    "iso": [{"kind": "iso"}, {"kind": "gauss"}],
+    "es": [{"kind": "es"}, {"kind": "es", "ranker": "imp"}],
+    "es2": [{"kind": "es", "ranker": "obj", "es": "openai_es"}, {"kind": "es", "ranker": "2rd"}],
+    "mixed": [{"kind": "es", "restart": 1}, {"kind": "iso"}, {"kind": "gauss"}],
+    # thorough tier only: every further numba-compiled strategy costs seconds of JIT per process
+    "es3": [{"kind": "es", "ranker": "imp", "es": "sep_cma_es"}, {"kind": "es", "ranker": "2obj", "es": "lm_ma_es"}],
+}
+
+
+def combos_sched(quick):
+    """(scheduler class x add_mode x dtype x layout) is enumerated in full; the emitter sets are crossed in
+    full in the thorough tier and rotated in the quick tier."""
+    sets = [e for e in EMITTER_SETS if not (quick and e == "es3")]
+    if quick:
+        base = [(s, m, d, L) for s in ("plain", "bandit") for m in ("batch", "single") for d in DTYPES
+                for L in LAYOUTS]
+        main = [(s, m, sets[i % len(sets)], d, L, "grid") for i, (s, m, d, L) in enumerate(base)]
+    else:
+        main = [(s, m, e, d, L, "grid") for s in ("plain", "bandit") for m in ("batch", "single") for e in sets
+                for d in DTYPES for L in LAYOUTS]
+    return main + \
+           [("plain", "batch", "es", d, L, k) for d in DTYPES for L in LAYOUTS
+            for k in ("grid_mae", "cvt", "prox_lc")]
+
+
+def gen_sched(rng, c):
+    s, m, e, d, L, k = c
+    ops = [{"op": "tell", "seed": rng.randrange(10**6), "layout": rand_layout(rng, TELL_ARGS)} for _ in range(rng.randint(0, 2))]
+    ops.append({"op": "tell", "seed": rng.randrange(10**6), "layout": L})
+    ops += [{"op": "tell", "seed": rng.randrange(10**6), "layout": rand_layout(rng, TELL_ARGS)} for _ in range(rng.randint(1, 2))]
+    return {"arch": k, "dtype": d, "sched": s, "add_mode": m, "emitters": EMITTER_SETS[e], "ops": ops}
+
+
+def combos_dqd(kind):
+    out = []
+    for via in ("scheduler", "direct"):
+        for norm in (True, False):
+            for alt in (True, False):
+                for d in DTYPES:
+                    for L in LAYOUTS:
+                        out.append((kind, via, norm, alt, d, L))
+    return out
+
+
+def gen_dqd(rng, c):
+    kind, via, norm, alt, d, L = c
+    spec = {"kind": kind, "normalize": norm}
+    if kind == "ga":
+        spec["grad_opt"] = "adam" if alt else "gradient_ascent"
+        spec["restart"] = rng.choice(["no_improvement", "basic", 2])
+    else:
+        spec["measure_gradients"] = alt
+    pre = [{"op": "add", "n": 3, "seed": rng.randrange(10**6), "layout": "exact"}]
+    o = "dqd_round" if via == "scheduler" else "emitter_dqd"
+    ops = pre + [{"op": o, "seed": rng.randrange(10**6), "layout": rand_layout(rng, DQD_ARGS)} for _ in range(rng.randint(0, 1))]
+    ops.append({"op": o, "seed": rng.randrange(10**6), "layout": L})
+    ops.append({"op": o, "seed": rng.randrange(10**6), "layout": rand_layout(rng, DQD_ARGS)})
+    case = {"arch": "grid", "dtype": d, "emitters": [spec], "ops": ops}
+    if via == "scheduler":
+        case["sched"] = "plain"
+    return case
+
+
+def combos_emitter_tell(quick):
+    specs = [{"kind": "es"}, {"kind": "es", "ranker": "imp"}, {"kind": "es", "ranker": "obj", "es": "openai_es"},
+             {"kind": "es", "ranker": "2rd", "restart": 1}, {"kind": "gauss"}, {"kind": "iso"}]
+    if not quick:
+        specs += [{"kind": "es", "ranker": "obj", "es": "sep_cma_es"}, {"kind": "es", "ranker": "2imp", "es": "lm_ma_es"}]
+    return [(i, d, L) for i in range(len(specs)) for d in DTYPES for L in LAYOUTS], specs
+
+
+def gen_emitter_tell(rng, c, specs):
+    i, d, L = c
+    ops = [{"op": "add", "n": 3, "seed": rng.randrange(10**6), "layout": "exact"}]
+    ops += [{"op": "emitter_tell", "seed": rng.randrange(10**6), "layout": rand_layout(rng, DQD_ARGS)}
+            for _ in range(rng.randint(0, 1))]
+    ops.append({"op": "emitter_tell", "seed": rng.randrange(10**6), "layout": L})
+    ops.append({"op": "emitter_tell", "seed": rng.randrange(10**6), "layout": rand_layout(rng, DQD_ARGS)})
+    archs = ["grid", "grid", "cvt"] + ([] if specs[i].get("ranker") == "2rd" else ["prox_lc"])
+    return {"arch": rng.choice(archs), "dtype": d, "emitters": [specs[i]], "ops": ops}
+
+
+def combos_opt():
+    return [(o, d, L) for o in ("adam", "ascent") for d in DTYPES for L in LAYOUTS]
+
+
+def gen_opt(rng, c):
+    o, d, L = c
+    ops = [{"op": "step", "seed": rng.randrange(10**6), "layout": rand_layout(rng, ("gradient",))} for _ in range(rng.randint(0, 2))]
+    ops.append({"op": "step", "seed": rng.randrange(10**6), "layout": L})
+    ops.append({"op": "step", "seed": rng.randrange(10**6), "layout": rand_layout(rng, ("gradient",))})
+    return {"opt": o, "dtype": d, "ops": ops}
+
+
+def combos_viz():
+    out = []
+    for d in DTYPES:
+        for fr in ("adf", "pdf"):
+            for k in ("grid", "cvt", "sba"):
+                for srt in (True, False):
+                    out.append((k, "parallel_axes_plot", srt, fr, d))
+            out.append(("grid", "grid_archive_heatmap", False, fr, d))
+            out.append(("cvt", "cvt_archive_heatmap", False, fr, d))
+            out.append(("sba", "sliding_boundaries_archive_heatmap", False, fr, d))
+            out.append(("prox", "proximity_archive_plot", False, fr, d))
+    return out
+
+
+def gen_viz(rng, c):
+    k, fn, srt, fr, d = c
+    ops = [{"op": "add", "n": 6, "seed": rng.randrange(10**6), "layout": "list" if k == "sba" else "exact"}] + \
+        prefix_adds(rng, rng.randint(0, 2), k)
+    ops.append({"op": "plot", "fn": fn, "sort": srt, "frame": fr})
+    ops.append({"op": "data", "rt": "dict"})
+    return {"arch": k, "dtype": d, "ops": ops}
+
+
+def combos_helpers():
+    names = ["validate_batch", "validate_single", "batch_entries_with_threshold", "single_entry_with_threshold",
+             "compute_objective_sum", "compute_best_index"]
+    return [(h, k, d, L) for h in names for k in ("grid", "grid_mae") for d in DTYPES for L in LAYOUTS]
+
+
+def gen_helpers(rng, c):
+    h, k, d, L = c
+    ops = prefix_adds(rng, rng.randint(0, 2))
+    ops.append({"op": "helper", "which": h, "n": rng.choice([1, 3, 4]), "seed": rng.randrange(10**6), "layout": L})
+    ops.append({"op": "data", "rt": "dict"})
+    return {"arch": k, "dtype": d, "ops": ops}
+
+
+def combos_readpaths():
+    return [(k, d) for k in ARCH_KINDS + ["store"] for d in DTYPES]
+
+
+def gen_readpaths(rng, c):
+    k, d = c
+    if k == "store":
+        ops = []
+        for _ in range(rng.randint(1, 4)):
+            ops += store_prefix(rng, 1) + [{"op": "readpaths"}]
+        return {"store": True, "dtype": d, "ops": ops}
+    ops = []
+    for _ in range(rng.randint(1, 4)):
+        ops += prefix_adds(rng, rng.randint(1, 2), k) + [{"op": "readpaths"}]
+    return {"arch": k, "dtype": d, "ops": ops}
+
+
+def nontrivial(case):
+    seen_add = False
+    for op in case["ops"]:
+        lay = op.get("layout")
+        lays = list(lay.values()) if isinstance(lay, dict) else [lay]
+        if any(x in NOCOPY_LAYOUTS for x in lays) or (op["op"] in OUTPUT_OPS and seen_add):
+            return True
+        if op["op"] in ("add", "add_single", "store_add", "tell", "dqd_round", "emitter_tell", "emitter_dqd"):
+            seen_add = True
+    return False
+
+
+def enumerating(combos, gen):
+    """gen_case for `ctx.explore`: walks the exhaustive combination list cyclically; the Random passed
+    in chooses the callee state (prefix ops, seeds, mixed layouts)."""
+    counter = [0]
+
+    def g(rng):
+        c = combos[counter[0] % len(combos)]
+        counter[0] += 1
+        return gen(rng, c)
+
+    return g
+
+
+def strata(ctx):
+    et_combos, et_specs = combos_emitter_tell(ctx.quick)
+    return [
+        # name, combos, generator, states per combo (quick, thorough), time budget (quick, thorough)
+        ("archive.add", combos_archive_add(), gen_archive_add, (1, 8), (4, 50)),
+        ("sliding.add", combos_sliding(), gen_sliding, (1, 6), (8, 60)),
+        ("archive.read", combos_archive_read(), gen_archive_read, (1, 6), (5, 70)),
+        ("archive.best_elite", combos_best(), gen_best, (3, 30), (2, 20)),
+        ("archive.iter", combos_iter(), gen_iter, (3, 30), (2, 20)),
+        ("store", combos_store(), gen_store, (1, 8), (3, 30)),
+        ("scheduler.tell", combos_sched(ctx.quick), gen_sched, (1, 5), (8, 90)),
+        ("dqd.arborescence", combos_dqd("ga"), gen_dqd, (1, 6), (4, 40)),
+        ("dqd.operator", combos_dqd("go"), gen_dqd, (1, 6), (3, 40)),
+        ("emitter.tell", et_combos, lambda rng, c: gen_emitter_tell(rng, c, et_specs), (1, 6), (3, 40)),
+        ("opt.step", combos_opt(), gen_opt, (2, 20), (1, 10)),
+        ("visualize.df", combos_viz(), gen_viz, (1, 4), (6, 80)),
+        ("helpers", combos_helpers(), gen_helpers, (1, 5), (3, 30)),
+        ("readpaths", combos_readpaths(), gen_readpaths, (3, 30), (2, 30)),
+    ]
+
+
+PUBLIC_ONLY_INTERNAL = {"SolutionBuffer.add"}  # exercised through SlidingBoundariesArchive.add_single only
+
+
+def tie_tables(ctx):
+    """The compiled machine agrees with the theorems' lists (names, negatives)."""
+    L = lean()
+    for name, bits, why in L.negatives():
+        v = L.verdict(name, bits)
+        if v != f"reject {why}":
+            ctx.fail(Failure("corr", f"negative example {name} (bits {bits or '-'}): machine says {v!r}, "
+                             f"listed rejection is {why}"), {"ops": [], "stratum": "tables", "negative": name})
+    ctx.extra["transcribed_entry_points"] = sorted(L.entries)
+    ctx.extra["negative_examples"] = [n for n, _, _ in L.negatives()]
+
+
+def run(ctx):
+    try:
+        tie_tables(ctx)
+        # warm-up (numba compilation of numpy_groupies / CMA-ES kernels) outside the strata's time budgets
+        run_case({"arch": "grid", "dtype": "f64", "sched": "plain", "emitters": EMITTER_SETS["es"],
+                  "ops": [{"op": "tell", "seed": 1, "layout": "list"}]})
+        stopped = False
+        for name, combos, gen, states, budget in strata(ctx):
+            n = len(combos) * (states[0] if ctx.quick else states[1])
+            ctx.extra.setdefault("combinations", {})[name] = len(combos)
+            ctx.explore(name, enumerating(combos, gen), run_case, ctx.n(n, n), nontrivial=nontrivial, max_fail=1,
+                        time_budget=budget[0] if ctx.quick else budget[1])
+            stopped = stopped or f"{name}:time-budget-stop" in ctx.dist
+        L = lean()
+        ctx.extra["lean_verdicts_asked"] = len(L.cache)
+        missing = sorted(set(L.entries) - L.used - PUBLIC_ONLY_INTERNAL)
+        if missing and not ctx.failures:
+            if stopped:
+                ctx.notes.append(f"transcriptions not exercised in this (time-limited) run: {missing}")
+            else:
+                ctx.fail(Failure("corr", f"transcribed entry points never exercised at runtime: {missing}"),
+                         {"ops": [], "stratum": "tables"})
+    finally:
+        lean_close()
+
+
+def replay(ctx, case):
+    try:
+        if not case.get("ops"):
+            tie_tables(ctx)
+            return ctx.failures[-1][0] if ctx.failures else None
+        return run_case(case)
+    finally:
+        lean_close()
